@@ -420,6 +420,13 @@ let model (line : string) : string =
            m := step cfg progs (OShow id) !m;
            pr " T="; pr_tree !m.m_root.r_tree
          | None -> m := step cfg progs (OShow id) !m)
+      | Op (OHide id) ->
+        (match t_find id !m.m_root.r_tree with
+         | Some _ ->
+           sep (); pr "HI W=%d U=" (iz id); pr_tree !m.m_root.r_tree;
+           m := step cfg progs (OHide id) !m;
+           pr " T="; pr_tree !m.m_root.r_tree
+         | None -> m := step cfg progs (OHide id) !m)
       | Op o -> m := step cfg progs o !m
       | Key ->
         sep (); pr "K T="; pr_tree !m.m_root.r_tree;
